@@ -26,6 +26,9 @@ type vfPool struct {
 	newDec   func() connect.Decompressor
 	History  []string
 	Fresh    int
+	// KeepAfterResetError: a user that does not drop an instance whose Reset
+	// failed (the statement covers reuse "right after the same instance failed")
+	KeepAfterResetError bool
 }
 
 func (p *vfPool) compress(in []byte) ([]byte, error) {
@@ -56,7 +59,9 @@ func (p *vfPool) decompress(src []byte) ([]byte, error) {
 		p.Fresh++
 	}
 	if err := p.dec.Reset(bytes.NewReader(src)); err != nil {
-		p.dec = nil
+		if !p.KeepAfterResetError {
+			p.dec = nil
+		}
 		return nil, fmt.Errorf("reset: %w", err)
 	}
 	var out bytes.Buffer
@@ -95,11 +100,12 @@ func TestVerifC20Pool(t *testing.T) {
 			name = "identity"
 		}
 		nc, nd := vfConstructors(enc)
+		keep := false
 		run := func(plan []string, ins [][]byte, flipBit, cutAt int) {
 			rep.Eval(1)
-			rep.DistinctKey(enc, plan, flipBit, cutAt, len(ins[0]))
-			p := &vfPool{enc: enc, newComp: nc, newDec: nd}
-			w := map[string]any{"encoding": name, "history": plan, "flip_bit": flipBit, "cut_at": cutAt}
+			rep.DistinctKey(enc, plan, flipBit, cutAt, len(ins[0]), keep)
+			p := &vfPool{enc: enc, newComp: nc, newDec: nd, KeepAfterResetError: keep}
+			w := map[string]any{"encoding": name, "history": plan, "flip_bit": flipBit, "cut_at": cutAt, "instance_kept_after_reset_error": keep}
 			rep.InFlight(w)
 			pn := verifkit.Catch(func() {
 				for si, step := range plan {
@@ -179,8 +185,17 @@ func TestVerifC20Pool(t *testing.T) {
 			plan[len(plan)-1] = "valid"
 			off := rng.Intn(len(inputs))
 			ins := append(append([][]byte{}, inputs[off:]...), inputs[:off]...)
+			keep = code%2 == 1
 			run(plan, ins, -1, -1)
 		}
+		for _, k := range []bool{false, true} {
+			keep = k
+			for _, first := range []string{"garbage", "empty", "cut", "flip"} {
+				run([]string{first, "valid", "valid"}, [][]byte{[]byte("hello hello hello")}, 3, 1)
+				run([]string{first, first, "valid"}, [][]byte{[]byte("hello hello hello")}, 9, 0)
+			}
+		}
+		keep = false
 		// exhaustive single faults on short inputs, each followed by a valid decode on the same instance
 		for _, in := range [][]byte{{}, []byte("hello hello"), rng.Bytes(24)} {
 			data, _ := verifkit.IndepCompress(name, in)
